@@ -188,10 +188,15 @@ class Model:
             # coincide exactly with an existing interval
             twin = self.ivs[r.choice(list(self.ivs))]
             a, sz = twin["addr"], twin["size"]
-        return {"op": "new_iv", "id": self.nid("I"), "addr": a,
-                "size": sz,
-                "sec": r.choice(list(self.secs) + [None]),
-                "via": r.choice(["ctor", "attr", "add"])}
+        op = {"op": "new_iv", "id": self.nid("I"), "addr": a,
+              "size": sz,
+              "sec": r.choice(list(self.secs) + [None]),
+              "via": r.choice(["ctor", "attr", "add"])}
+        if sz <= 4096 and r.random() < 0.3:
+            # an interval that stores bytes (none of the lookups cares, but
+            # a size assignment below their count also cuts them)
+            op["nbytes"] = r.choice([sz, r.randint(0, sz)])
+        return op
 
     def gen_new_blk(self):
         r = self.rnd
@@ -730,12 +735,16 @@ class Real:
                                      module=O[op["mod"]])
         elif k == "new_iv":
             sec = O[op["sec"]] if op["sec"] else None
+            kw = {}
+            if op.get("nbytes"):
+                kw["contents"] = bytes(op["nbytes"])
+                self.ctx.count("intervals_with_stored_bytes")
             if op["via"] == "ctor" or sec is None:
                 o = gt.ByteInterval(address=op["addr"], size=op["size"],
-                                    uuid=self.uuid(), section=sec)
+                                    uuid=self.uuid(), section=sec, **kw)
             else:
                 o = gt.ByteInterval(address=op["addr"], size=op["size"],
-                                    uuid=self.uuid())
+                                    uuid=self.uuid(), **kw)
                 if op["via"] == "attr":
                     o.section = sec
                 else:
